@@ -56,7 +56,7 @@ PROPS["C12"] = {
     "modelled": WHOLE_FILE_MODELLED,
     "level_text": "Lean theorems: for every source whose lines are terminator-free and every world in which included files and command output have CR only before LF, in every mode and both passes, the whole output of a successful pass consists of terminator-free pieces joined by the source's line ending (output_one_ending, proved over the streaming machine), and so does every temp file content; stored tag values keep that discipline; the ending is sniffed from the first line only. Every generated file of every generated project is byte-scanned on the real implementation on each run, and the whole run is compared with the model.",
     "design_ref": "5 C12",
-    "level_note": 'That BufRead::lines (modelled at byte level: split at byte 10, strip one trailing 13, decode UTF-8) delivers terminator-free lines for a CR-only-before-LF source is proved (source_lines_terminator_free) and composed with the pass theorem in output_one_ending_of_bytes. Domain: CR occurs only immediately before LF (in sources, included files and command output). Also proved over the file-system model: a run keeps a CR-clean tree CR-clean (run_keeps_tree_cr_clean), and the bytes a build pass writes use one ending (build_pass_output_bytes_one_ending), with included files read from the modelled tree and only the commands' output assumed CR-clean.',
+    "level_note": 'That BufRead::lines (modelled at byte level: split at byte 10, strip one trailing 13, decode UTF-8) delivers terminator-free lines for a CR-only-before-LF source is proved (source_lines_terminator_free) and composed with the pass theorem in output_one_ending_of_bytes. Domain: CR occurs only immediately before LF (in sources, included files and command output). Also proved over the file-system model: a run keeps a CR-clean tree CR-clean (run_keeps_tree_cr_clean), and the bytes a build pass writes use one ending (build_pass_output_bytes_one_ending), with included files read from the modelled tree and only the output of commands assumed CR-clean.',
     "technique": "Lean 4 proof (line-ending conformance of each producer) + byte-scan oracle + differential correspondence",
     "assumptions": ["CR occurs only immediately before LF in sources, included files and command output"],
 }
